@@ -107,7 +107,7 @@ PROPS["C13"] = dict(
     title="Grammar transformations and FSG files preserve the grammar",
     level="exploration",
     technique="runtime oracle: tropical-semiring string table (naive Bellman-Ford) over generator-side arcs vs arcs observed through fsg_model_arcs after each transformation, under ASan/UBSan",
-    level_text="exploration: for each random finite-state grammar (1-12 states, null chains and cycles, duplicate arcs, self-loops, "
+    level_text="exploration: for each random finite-state grammar (1-12 connected states, every ninth grammar with 30-3000 further isolated states that no arc mentions and sometimes the start or final state among them, null chains and cycles, duplicate arcs, self-loops, "
                "unreachable states, probabilities 1e-30..1, lw 1..9.5, built through the API or from generated FSG text) the best weight "
                "of all 364 word strings of length <= 5 over a 3-word alphabet is computed from the generator's own arc list and must be "
                "reproduced after construction, after the null closure (also when following at most one null arc between words; second "
@@ -122,7 +122,7 @@ PROPS["C13"] = dict(
         dict(harness="h_fsgxf", flavor="fast", quick=4000, thorough=120000, name="h_fsgxf_fast"),
     ],
     floor=dict(min_evaluations=1000, min_distinct=300, counters={"closures_checked": 1000, "roundtrips_compared": 300, "silence_checked": 1000,
-                                                                 "alt_checked": 200, "filler_insertions_checked": 500, "built_from_text": 200}),
+                                                                 "alt_checked": 200, "filler_insertions_checked": 500, "built_from_text": 200, "sparse_grammars": 100}),
     assumptions=[A_SAN, A_GEN],
 )
 
@@ -135,7 +135,9 @@ PROPS["C05"] = dict(
                "compiled through jsgf_parse_string + jsgf_build_fsg(_raw) and jsgf_read_string, and the set of accepted word strings "
                "of length <= 5 (quick) / 6 (thorough) over 3 words is compared with the AST's denotation; grammars the analysis marks "
                "unrepresentable (non-tail recursion, reachable undefined rule, no public rule) must be refused; in non-recursive "
-               "grammars every state of the raw FSG must be stochastic (weights normalised).",
+               "grammars every state of the raw FSG must be stochastic (weights normalised).  Then every rule of the grammar, in random "
+               "order and the first one again, is compiled from the same parsed object and judged the same way, so that what one "
+               "compilation (also a refused one) leaves behind cannot show in the next.",
     level_note="bounded string length and alphabet; weights only on first atoms of alternatives (their JSGF meaning); quoted tokens are not "
                "generated (scanner keeps the quotes: recorded in DESIGN.md as an observation outside this check)",
     rule="one case = one generated grammar; non-trivial = representable and denoting >= 2 strings, or marked must-refuse; distinct = hash of the grammar text.",
@@ -144,7 +146,7 @@ PROPS["C05"] = dict(
         dict(harness="h_jsgf", flavor="fast", quick=5000, thorough=150000, name="h_jsgf_fast"),
     ],
     floor=dict(min_evaluations=1000, min_distinct=300, counters={"languages_compared": 500, "class_tail_recursion": 20, "class_plain": 200,
-                                                                 "choice_points_checked": 200}),
+                                                                 "choice_points_checked": 200, "rules_compiled_in_sequence": 2000, "rules_refused_in_sequence": 100}),
     assumptions=[A_SAN, A_GEN],
 )
 
@@ -177,7 +179,8 @@ PROPS["C01"] = _decode_prop(
     "fillers are recognised by spelling (<..>, [..], +..+) exactly as the bundled filler dictionaries define them",
     _SCEN + "Non-trivial = a hypothesis was returned or partial results were observed; distinct = hash of (grammar text, audio, hypothesis).",
     dict(min_evaluations=200, min_distinct=60, counters={"final_results_checked": 100, "partial_results_checked": 100, "final_no_hypothesis": 5,
-                                                        "grammar_fsg-text": 20, "grammar_jsgf-right-linear": 20, "grammar_jsgf-slots": 20, "grammar_align-text": 20}))
+                                                        "grammar_fsg-text": 20, "grammar_jsgf-right-linear": 20, "grammar_jsgf-slots": 20, "grammar_align-text": 20,
+                                                        "vocabularies_with_prefix_pairs": 20}))
 
 PROPS["C03"] = _decode_prop(
     "C03", "Word segmentation tiles the utterance and agrees with hypothesis and score", "C03",
@@ -332,7 +335,7 @@ PROPS["C10"] = dict(
             dict(harness="h_fuzz", flavor="plain", valgrind=True, quick=0, thorough=3500, tiers=["thorough"], name="h_fuzz_memcheck")],
     floor=dict(min_evaluations=20000, min_distinct=10000, counters={"objects_returned_jsgf": 100, "objects_returned_fsg": 100, "objects_returned_dict": 100,
                                                                    "objects_returned_config": 100, "grammars_loaded_into_decoder": 50, "short_decodes": 50,
-                                                                   "words_accepted": 20, "texts_accepted": 20, "fsgs_built_from_jsgf": 100}),
+                                                                   "words_accepted": 20, "texts_accepted": 20, "fsgs_built_from_jsgf": 100, "large_vocabulary_grammars": 200}),
     assumptions=[A_SAN, A_GEN],
 )
 
@@ -410,9 +413,11 @@ PROPS["C02"] = dict(
     stages=[dict(harness="h_viterbi", flavor="asan", quick=160, thorough=2500), dict(harness="h_viterbi", flavor="fast", quick=400, thorough=10000, name="h_viterbi_fast")],
     floor=dict(min_evaluations=300, min_distinct=300, counters={"oracle_runs": 300, "exact_optimum_matches": 120, "agreed_no_alignment_exists": 5, "pruned_scores_not_above_optimum": 20,
                                                               "segmentations_achieve_reported_score": 150, "grammars_with_null_arcs": 40, "grammars_with_one_phone_words": 20,
-                                                              "grammars_with_word_loops": 30, "grammars_with_fillers": 100, "grammars_without_fillers": 20, "cionly_cases": 10}),
+                                                              "grammars_with_word_loops": 30, "grammars_with_fillers": 100, "grammars_without_fillers": 20, "cionly_cases": 10,
+                                                              "grammars_with_null_chains_and_short_cuts": 15, "oracle_null_closures": 100}),
     assumptions=[A_SAN, A_GEN, "frame scores are the ones the search itself obtained from acmod_score, recorded through hook H1 (compallsen: every senone of every frame)",
-                 "the grammar searched is read back from the loaded FSG (that loading preserves the language is C13/C05's subject)"],
+                 "the grammar searched is read back from the loaded FSG (that loading preserves the language is C13/C05's subject); between two words a legal "
+                 "alignment may pass any chain of its null arcs: the oracle closes them itself (best product over every chain) and does not rely on the composite arcs the library prepared"],
 )
 
 PROPS["C09"] = dict(
